@@ -149,9 +149,19 @@ Definition complete_edges (es : list edge) (fs : list (list Z)) : list edge :=
 (* _prepare_edges *)
 Definition edge_valid (N : Z) (e : edge) : bool :=
   negb (fst e =? snd e) && (0 <=? fst e) && (fst e <? N) && (0 <=? snd e) && (snd e <? N).
+(* keep[ie]: the edge is valid and - when the source drops repeated declarations (pe_drop_repeated, generated) - its
+   keyified pair was not kept before *)
+Fixpoint keep_flags (N : Z) (seen : list edge) (es : list edge) : list bool :=
+  match es with
+  | [] => []
+  | e :: t => let k := keyE e in
+              let ok := edge_valid N e && negb (pe_drop_repeated && mem_edge k seen) in
+              ok :: keep_flags N (if ok then k :: seen else seen) t
+  end.
 Definition prepare_edges (N : Z) (es : list edge) : list edge * bool :=
-  if forallb (edge_valid N) es then (map keyE es, false)
-  else (map keyE (filter (edge_valid N) es), true).      (* true: the container was rebuilt *)
+  let ks := keep_flags N [] es in
+  if forallb (fun b => b) ks then (map keyE es, false)
+  else (map keyE (map fst (filter snd (combine es ks))), true).      (* true: the container was rebuilt *)
 (* _generate_face_corners / _generate_cell_corners: (vertex, face) pairs *)
 Definition corners (fs : list (list Z)) : list (Z * Z) :=
   flat_map (fun Fi => map (fun v => (v, snd Fi)) (fst Fi)) (combine fs (zrange (Zlen fs))).
